@@ -241,24 +241,35 @@ def _readline(p, buf, timeout):
     return line.decode()
 
 
-def run_cases(cases, limit=5.0, workdir="/verif/work/C12"):
+_seq = [0]
+
+
+def run_cases(cases, limit=5.0, workdir="/verif/work/C12", max_hangs=None, tag=""):
     """-> list of {"outcome", "secs", "rss_kb"} (outcome HANG: no result within `limit` s; HANG-HARD / DIED: the worker had
-    to be killed / died on that case)."""
+    to be killed / died on that case; SKIPPED: not run because `max_hangs` cases before it already hung)."""
     os.makedirs(workdir, exist_ok=True)
-    path = os.path.join(workdir, "time_cases_%d.jsonl" % os.getpid())
+    _seq[0] += 1
+    path = os.path.join(workdir, "time_cases_%d_%d%s.jsonl" % (os.getpid(), _seq[0], tag))
     with open(path, "w") as f:
         for c in cases:
             f.write(json.dumps(c) + "\n")
     res = [None] * len(cases)
     start = 0
+    hangs = 0
     try:
         while start < len(cases):
+            if max_hangs is not None and hangs >= max_hangs:
+                for i in range(start, len(cases)):
+                    res[i] = {"outcome": "SKIPPED", "secs": 0.0, "rss_kb": 0}
+                break
+            errf = open(path + ".err", "w+")
             p = subprocess.Popen([sys.executable, os.path.abspath(__file__), path, str(start), str(limit)],
-                                 stdout=subprocess.PIPE, stderr=subprocess.PIPE)
+                                 stdout=subprocess.PIPE, stderr=errf)
             buf = [b""]
             cur = None
             t_cur = time.time()
             startup = True
+            enough = False
             while True:
                 reps = cases[cur].get("reps", 1) if cur is not None else 1
                 line = _readline(p, buf, 120 if startup else (limit + HARD_GRACE) * reps)
@@ -272,26 +283,34 @@ def run_cases(cases, limit=5.0, workdir="/verif/work/C12"):
                     res[m["i"]] = {"outcome": m["outcome"], "secs": m["secs"], "rss_kb": m["rss_kb"]}
                     start = m["i"] + 1
                     cur = None
-                    if start >= len(cases):
+                    if "HANG" in m["outcome"]:
+                        hangs += 1
+                    if start >= len(cases) or (max_hangs is not None and hangs >= max_hangs):
+                        enough = True
                         break
             alive = p.poll() is None
             p.kill()
-            err = p.stderr.read().decode(errors="replace")[-600:]
             p.wait()
-            if start >= len(cases):
-                break
+            p.stdout.close()
+            errf.seek(0)
+            err = errf.read()[-600:]
+            errf.close()
+            if enough:
+                continue
             if cur is None:
                 if startup:
                     raise RuntimeError("c12_time worker did not start: " + err)
                 cur = start
             res[cur] = {"outcome": "HANG-HARD" if alive else "DIED", "secs": round(time.time() - t_cur, 3), "rss_kb": 0,
                         "stderr": err}
+            hangs += 1
             start = cur + 1
     finally:
-        try:
-            os.remove(path)
-        except OSError:
-            pass
+        for q in (path, path + ".err"):
+            try:
+                os.remove(q)
+            except OSError:
+                pass
     return res
 
 
